@@ -87,6 +87,8 @@ pub struct St {
     pub in_delivered: usize,
     /// Bytes queued in total (delivered or not).
     pub in_queued: usize,
+    /// Everything ever queued inbound (the server->client stream).
+    pub in_log: Vec<u8>,
     pub read_max: usize,
     pub read_calls: u64,
     /// Return a spurious would-block after every successful read.
@@ -95,6 +97,11 @@ pub struct St {
     pub last_read_data_at: Option<Instant>,
     pub end_delivered_at: Option<Instant>,
     pub segmenter: Segmenter,
+    /// Fault injection: the inbound stream ends (EOF / error) after exactly this
+    /// many bytes have been queued.
+    pub in_cut: Option<(usize, InEnd)>,
+    /// Fault injection: flip the inbound byte at this stream offset.
+    pub corrupt_at: Option<usize>,
     // ---- outbound (client -> server)
     pub out: Vec<u8>,
     pub writes: Vec<WriteRec>,
@@ -157,6 +164,7 @@ pub fn new_mock(reflex: Reflex) -> (Mock, Handle) {
         in_end: None,
         in_delivered: 0,
         in_queued: 0,
+        in_log: Vec::new(),
         read_max: usize::MAX,
         read_calls: 0,
         wb_after_each_read: false,
@@ -164,6 +172,8 @@ pub fn new_mock(reflex: Reflex) -> (Mock, Handle) {
         last_read_data_at: None,
         end_delivered_at: None,
         segmenter: Segmenter::Whole,
+        in_cut: None,
+        corrupt_at: None,
         out: Vec::new(),
         writes: Vec::new(),
         budget: usize::MAX,
@@ -237,11 +247,23 @@ impl Shared {
         let _ = self.setr.set_readiness(st.readiness);
     }
 
-    fn push_in(&self, st: &mut St, bytes: Vec<u8>) {
+    fn push_in(&self, st: &mut St, mut bytes: Vec<u8>) {
+        if let Some(at) = st.corrupt_at {
+            if at >= st.in_queued && at < st.in_queued + bytes.len() {
+                bytes[at - st.in_queued] ^= 0x55;
+            }
+        }
+        if let Some((cut, end)) = st.in_cut {
+            if st.in_queued + bytes.len() >= cut {
+                bytes.truncate(cut.saturating_sub(st.in_queued));
+                st.in_end = Some(end);
+            }
+        }
         if bytes.is_empty() {
             return;
         }
         st.in_queued += bytes.len();
+        st.in_log.extend_from_slice(&bytes);
         let mut seg = std::mem::replace(&mut st.segmenter, Segmenter::Whole);
         seg.cut(bytes, &mut st.inq);
         st.segmenter = seg;
@@ -537,6 +559,7 @@ impl Handle {
         for c in chunks {
             if !c.is_empty() {
                 st.in_queued += c.len();
+                st.in_log.extend_from_slice(&c);
                 st.inq.push_back(c);
             }
         }
